@@ -6,6 +6,7 @@ import CnfgenModel.Fam.Iso
 import Lemmas.FamMapList
 namespace Cnfgen
 namespace Fam
+namespace G2
 open Vars
 
 /-- What the families of this file need from a graph object: `has_edge` is symmetric and irreflexive.
@@ -117,5 +118,6 @@ theorem notIdentity_holds (α : Assign) (n : Nat) :
   · rintro ⟨u, h1, h2, h⟩
     exact ⟨u, ⟨h1, h2⟩, by rw [litHolds_neg_mlit α (Nat.le_refl 1), h]; rfl⟩
 
+end G2
 end Fam
 end Cnfgen
